@@ -47,7 +47,7 @@ open OxiVerif.Spec
 
 /-- T1 on the safe fragment: ASCII names (any ASCII byte: white space, delimiters, `#`, controls
     included), no `i g /R` look-alike after an integer, integer tokens inside `i64`, references
-    with object number ≤ 9 999 999. -/
+    with object number ≤ `u32::MAX` (the type of `ObjectId`) and generation ≤ `u16::MAX`. -/
 theorem C09_lib_roundtrip_partial (v : Obj) (rest : List Nat) (fuel : Nat)
     (hs : SafeLib (sortDicts v) rest = true) (hf : needFT (sortDicts v) + 1 ≤ fuel) :
     ObjParser.parseObj fuel (ser v ++ rest) = .ok (readBack (sortDicts v), rest) :=
@@ -155,10 +155,17 @@ theorem C09_witness_lib_big_real :
     ObjParser.parse (ser (.real [49, 48, 48, 48, 48, 48, 48, 48, 48, 48, 48, 48, 48, 48, 48, 48, 48, 48, 48, 48,
       46, 48, 48, 48, 48, 48, 48]) ++ [10, 62, 62]) = .error .syntax := by rfl
 
-/-- counter-witness: a reference to object 10 000 000 is outside the look-ahead window and is
-    read as the integer 10000000 (followed by `0` and `R`) -/
+/-- the former witness reads back: the look-ahead window now covers every `u32` object number -/
+example : ObjParser.parse (ser (.ref 10000000 0) ++ [10]) = .ok (.ref 10000000 0, [10]) := by rfl
+example : ObjParser.parse (ser (.ref 4294967295 65535) ++ [93]) = .ok (.ref 4294967295 65535, [93]) := by rfl
+
+/-- regression witness (C09-F5, window `0..=9999999`): after the integer 10000000 the old arm did
+    not look ahead, so `10000000 0 R` was read as the integer 10000000 (followed by `0` and `R`);
+    the present arm finds the reference -/
 theorem C09_witness_lib_far_ref :
-    ObjParser.parse (ser (.ref 10000000 0) ++ [10]) = .ok (.int 10000000, [32, 48, 32, 82, 10]) := by rfl
+    ObjParser.intArmOld 10000000 [32, 48, 32, 82, 10] = .ok (.int 10000000, [32, 48, 32, 82, 10]) ∧
+    ObjParser.intArm 10000000 [32, 48, 32, 82, 10] = .ok (.ref 10000000 0, [10]) := by
+  constructor <;> rfl
 
 /-! ## T2 — an independent reader -/
 
